@@ -300,6 +300,30 @@ def _extent(repo, rep):
               construct="unescaped-before-ref:split-parts",
               where=L.where(sp, shortens[0].lineno if shortens else None),
               detail=src(shortens[0])[:80] if shortens else "")
+    # ... and no text is shortened *before* it is cut into parts: the parts
+    # are slices of the argument, or the pieces of a split of the argument
+    # itself -- a replace of unequal length in front of the split moves
+    # every later part to the left of where it stands in the source
+    moved = []
+    for n in ast.walk(sp.node):
+        if isinstance(n, ast.Call) and isinstance(n.func, ast.Attribute) \
+                and n.func.attr in ("split", "rsplit", "partition",
+                                    "rpartition", "splitlines"):
+            recv = L.inline_locals(sp.node, n.func.value)
+            for c_ in ast.walk(recv):
+                if isinstance(c_, ast.Call) and isinstance(
+                        c_.func, ast.Attribute) and \
+                        c_.func.attr == "replace" and len(c_.args) >= 2 and \
+                        all(isinstance(a, ast.Constant) and
+                            isinstance(a.value, str) for a in c_.args[:2]) \
+                        and len(c_.args[0].value) != len(c_.args[1].value):
+                    moved.append(n)
+    rep.check(not moved, "R12.2b", sp.qualname, "the statement is cut into "
+              "parts as written (nothing of unequal length is substituted "
+              "before the cut: later parts keep their source position)",
+              construct="shortened-before-split",
+              where=L.where(sp, moved[0].lineno if moved else None),
+              detail=src(moved[0])[:80] if moved else "")
     rep.require_min("R12.2b", 3, "statement values, ${} candidates, parts")
     # the file name reported in a frame is the constant __filename of the
     # compiled module: a module may be reused from the cache only for the
